@@ -28,6 +28,9 @@ def plan(tier, seed):
                       "primitive_monitors": False, "rounds": 1 if tier == "quick" else 12, "seconds_per_scheme": 9,
                       "budget_s": 300})
     for j in range(3):
+        specs.append({"name": f"interrupted-and-repeated-{j}", "kind": "interrupted", "schemes": _g.SCHEMES[j::3],
+                      "primitive_monitors": False, "rounds": 1 if tier == "quick" else 6, "budget_s": 150})
+    for j in range(3):
         specs.append({"name": f"dropped-index-generations-{j}", "kind": "generations", "schemes": _g.SCHEMES[j::3],
                       "rounds": 1 if tier == "quick" else 8, "generations": 60, "budget_s": 120})
     for j in range(2 if tier == "quick" else 4):
@@ -172,6 +175,8 @@ def run_shard(spec, acc, ctx):
         eng.run_feedback(spec, acc, ctx, "present")
     elif spec.get("kind") == "generations":
         eng.run_generations(spec, acc, ctx, "present")
+    elif spec.get("kind") == "interrupted":
+        eng.run_interrupted(spec, acc, ctx, "present")
     elif spec.get("kind") == "long_keywords":
         eng.run_long_keywords(spec, acc, ctx, "present")
     elif spec.get("kind") == "threads":
@@ -181,6 +186,9 @@ def run_shard(spec, acc, ctx):
 
 
 def replay(case, acc, ctx):
+    if case.get("interrupted"):
+        acc.count("replayed")
+        return eng.run_interrupted({"schemes": [case["scheme"]], "rounds": 2}, acc, ctx, "present")
     if case.get("generations"):
         acc.count("replayed")
         return eng.run_generations({"schemes": [case["scheme"]], "rounds": 3, "generations": 80}, acc, ctx, "present")
